@@ -282,7 +282,7 @@ def structs_of(case):
     return out
 
 
-def model_line(case, fuel=8):
+def model_line(case, fuel=64):
     from translate.imports import EXN
     encs = {"utf-8", "utf-8-sig"}
     if case["override"]:
@@ -460,10 +460,15 @@ def documented(case):
     return True
 
 
-def reach(case, limit=6):
+DEEP = 150
+
+
+def reach(case, limit=400):
     """allowed URLs: every href of every sheet the table can serve, resolved (RFC 3986, urllib) against the URL of
-    that sheet; also reports whether a sheet can be reached from itself (import cycle) or deeper than `limit`"""
-    allowed, cyc = set(), [False]
+    that sheet, following the import chains as the property describes them (a URL that is already in the chain is
+    not loaded again); also reports whether some chain comes back to one of its URLs (import cycle) and whether a
+    chain of distinct URLs is deeper than DEEP sheets"""
+    allowed, cyc, deep = set(), [False], [False]
     base0 = case["href"] if case["href"] is not None else cwd_url()
 
     def walk(base, st, path):
@@ -475,29 +480,33 @@ def reach(case, limit=6):
             except ValueError:
                 continue
             allowed.add(u)
-            if u in path or len(path) >= limit:
+            if u in path:
                 cyc[0] = True
+                continue
+            if len(path) > DEEP:
+                deep[0] = True
+            if len(path) >= limit:
                 continue
             for b in case["table"].get(u, []):
                 if b[0] in ("text", "bytes"):
                     walk(u, b[2], path + [u])
-    walk(base0, case["top"], [base0])
-    return allowed, cyc[0]
+    walk(base0, case["top"], [case["href"]] if case["href"] is not None else [])
+    return allowed, cyc[0], deep[0]
 
 
 def std_join(base, href):
     return urllib.parse.urljoin(base, href, allow_fragments=False)
 
 
-def expected_load(case, base, parent_enc, href, k=0):
+def expected_load(case, base, parent_enc, href, k=0, chain=()):
     """independent reading of the property for a top-level import: (loaded?, encoding the text must be decoded with)"""
     try:
         u = std_join(base, href)
     except ValueError:
         return False, None, None
     bl = case["table"].get(u)
-    if not bl:
-        return False, None, u
+    if not bl or u in chain:
+        return False, None, u           # (a URL of the import chain is not loaded again)
     b = bl[min(k, len(bl) - 1)]
     if b[0] not in ("text", "bytes"):
         return False, None, u
@@ -516,9 +525,9 @@ def expected_load(case, base, parent_enc, href, k=0):
 def oracle(case, impl):
     """returns a list of (description, sig_text)"""
     out = []
-    allowed, cyclic = reach(case)
+    allowed, cyclic, deep = reach(case)
     sig = "behaviours=" + ",".join(sorted({b[0] + (":" + b[1] if b[0] == "raise" else "") for bl in case["table"].values()
-                                           for b in bl})) + (" cyclic" if cyclic else " acyclic")
+                                           for b in bl})) + (" cyclic" if cyclic else " acyclic") + (" deepchain" if deep else "")
     if impl.get("default_calls"):
         out.append(("the default (network/file) fetcher was called: %r" % impl["default_calls"][:3], sig))
     absolute = bool(urllib.parse.urlparse(case["href"] or cwd_url()).scheme)
@@ -581,12 +590,14 @@ def oracle(case, impl):
         except ValueError:
             pass
         k = seen.get(u0, 0)
-        ok, enc, u = expected_load(case, base, penc, it[1], k)
+        chain0 = [case["href"]] if case["href"] is not None else []
+        ok, enc, u = expected_load(case, base, penc, it[1], k, chain0)
         used = 1
         if not ok:
-            ok, enc, u = expected_load(case, base, penc, it[1], k + 1)
+            ok, enc, u = expected_load(case, base, penc, it[1], k + 1, chain0)
             used = 2
-        seen[u0] = k + used
+        if u0 not in chain0:
+            seen[u0] = k + used
         if r[3] != ok:
             out.append(("@import %r: hrefFound is %r, the fetcher's answer says %r" % (it[1], r[3], ok), sig))
             continue
@@ -613,10 +624,10 @@ def oracle(case, impl):
                 out.append(("imported sheet of %r reports encoding %r, the priority list gives %r"
                             % (it[1], senc, enc_norm(enc)), sig))
     # the same statements at every depth (one answer per URL only)
-    if stateless(case) and documented(case) and not cyclic and absolute and not any("/../" in u for u in impl["trace"]):
-        enc_walk(case, impl["rules"], base, penc, out, sig)
+    if stateless(case) and documented(case) and absolute and not any("/../" in u for u in impl["trace"]):
+        enc_walk(case, impl["rules"], base, penc, out, sig, chain=[case["href"]] if case["href"] is not None else [])
     # resolveImports
-    if stateless(case) and documented(case) and not cyclic:
+    if stateless(case) and documented(case):
         res = impl.get("resolve")
         sig += " raising=%s" % bool(case.get("raising", True))
         if isinstance(res, str) and rebased:
@@ -648,7 +659,7 @@ def nested_kept(rules, depth=0):
     return False
 
 
-def enc_walk(case, rules, base, penc, out, sig, depth=1):
+def enc_walk(case, rules, base, penc, out, sig, depth=1, chain=()):
     """loading and encoding priority for the imports of one sheet (URL `base`, encoding inherited by its imports
     `penc`), then recursively for every loaded sheet: the importing sheet's encoding is the encoding it was read with"""
     for r in rules:
@@ -660,6 +671,11 @@ def enc_walk(case, rules, base, penc, out, sig, depth=1):
             continue
         bl = case["table"].get(u)
         b = bl[0] if bl else ["none"]
+        if u in chain:
+            if r[3] or r[5]:
+                out.append(("@import %r (depth %d) resolves to %r, a URL of its own import chain, and was loaded again"
+                            % (r[1], depth, u), sig))
+            continue
         if b[0] not in ("text", "bytes"):
             if r[3]:
                 out.append(("@import %r (depth %d) is marked loaded although the fetcher gave no content" % (r[1], depth), sig))
@@ -700,7 +716,7 @@ def enc_walk(case, rules, base, penc, out, sig, depth=1):
             inherit = first_truthy(own)
             if inherit is None and r[5] and r[5][0][0] == "charset":
                 inherit = r[5][0][1]
-            enc_walk(case, r[5], u, inherit, out, sig, depth + 1)
+            enc_walk(case, r[5], u, inherit, out, sig, depth + 1, list(chain) + [u])
 
 
 def styles_of(flat, media=None):
@@ -873,6 +889,24 @@ def gen_cases(ctx, thorough):
     for b1 in allb:
         for b2 in (["text", None, None], ["none"], ["raise", "OSError"], ["bytes", None, None, "latin-1"]):
             cases.append(case_for([("f.css", "all"), ("f.css", "all")], [[b1, b2, ["none"]], ["none"]]))
+    # (7) import cycles: a sheet importing itself, two and three sheets importing each other, with media, as text and bytes,
+    #     reached from a top sheet inside or outside the cycle; every URL of a chain is loaded once
+    for kind in ("text", "bytes"):
+        def beh(struct, kind=kind):
+            return ["text", None, struct] if kind == "text" else ["bytes", None, struct, "utf-8"]
+        for m1 in ("all", "print"):
+            for m2 in ("all", "tv"):
+                cases.append({"top": st([["I", "top.css", m1], ["S", "t", "x"]]), "href": TOP, "override": None,
+                              "table": {TOP: [beh(st([["I", "top.css", m2], ["S", "t", "x"]]))]}})
+                cases.append({"top": st([["I", "a.css", m1], ["S", "t", "x"]]), "href": TOP, "override": None,
+                              "table": {"http://h/d/a.css": [beh(st([["I", "a.css", m2], ["S", "a", "1"]]))]}})
+                cases.append({"top": st([["I", "a.css", m1], ["I", "b.css", m2], ["S", "t", "x"]]), "href": TOP, "override": None,
+                              "table": {"http://h/d/a.css": [beh(st([["I", "b.css", m2], ["S", "a", "1"]]))],
+                                        "http://h/d/b.css": [beh(st([["I", "a.css", m1], ["I", "top.css", "all"], ["S", "b", "2"]]))]}})
+                cases.append({"top": st([["I", "s/a.css", m1]]), "href": TOP, "override": None,
+                              "table": {"http://h/d/s/a.css": [beh(st([["I", "../b.css", m2], ["S", "a", "1"]]))],
+                                        "http://h/d/b.css": [beh(st([["I", "c.css", "all"], ["S", "b", "2"]]))],
+                                        "http://h/d/c.css": [beh(st([["I", "s/a.css", m1], ["I", "./b.css", "all"], ["S", "c", "3"]]))]}})
     # (6) random mixtures
     for _ in range(4000 if thorough else 500):
         n = rng.randint(1, 3)
